@@ -83,10 +83,19 @@ Fixpoint collect {A} (l : list (mres A)) : mres (list A) :=
   | MErr c :: _ => MErr c
   | MOk a :: t => match collect t with MOk r => MOk (a :: r) | MErr c => MErr c end
   end.
-(* the accumulator is allocated as  zeros((m, m))  with m = prob_dists[0].shape[0] (NOT the number of variables nv) and the
-   nv x nv matrices are added in place: fine when nv = m, numpy broadcasting when nv = 1, ValueError (7) otherwise.
+(* AFTER fix calc-fisher-matrix-total-size (the faithful model of the repaired code): the accumulator is allocated as
+   zeros((nv, nv)) with nv = len(grad_prob_dists[0][0]), the number of variables, and the nv x nv matrices are added.
    Returns (size, matrix). *)
 Definition mu_fisher_total (eps : F) (m nv : nat) (items : list (F * vec * mat)) : mres (nat * mat) :=
+  if existsb (fun it => let '(w, _, _) := it in flt w 0) items then MErr 6 else
+  match collect (map (fun it => let '(_, p, G) := it in mu_fisher eps m m p G) items) with
+  | MErr c => MErr c
+  | MOk Fs => MOk (nv, wsum_mats (combine (map (fun it => let '(w, _, _) := it in w) items) Fs))
+  end.
+(* AS CODED BEFORE fix calc-fisher-matrix-total-size (kept only for the _refuted theorem, not executed by the harness):
+   the accumulator was allocated as  zeros((m, m))  with m = prob_dists[0].shape[0] (NOT the number of variables nv) and the
+   nv x nv matrices were added in place: fine when nv = m, numpy broadcasting when nv = 1, ValueError (7) otherwise. *)
+Definition mu_fisher_total_before_fix (eps : F) (m nv : nat) (items : list (F * vec * mat)) : mres (nat * mat) :=
   if existsb (fun it => let '(w, _, _) := it in flt w 0) items then MErr 6 else
   match collect (map (fun it => let '(_, p, G) := it in mu_fisher eps m m p G) items) with
   | MErr c => MErr c
@@ -115,15 +124,43 @@ Definition mse_general_norm (norms : list F) : F := mean (map (fun v => v * v) n
 (* ---------------- StandardQTomography ---------------- *)
 (* A is nr x nv, b has nr entries, v has nv entries:  A v + b *)
 Definition affine (nv : nat) (A : mat) (b v : vec) : vec := fun i => mv nv A v i + b i.
-(* reshape((num_schedules, -1)): the common row length, or None (ValueError) *)
-Definition reshape_rows (nr J : nat) : option nat :=
-  if Nat.eqb J 0 then None else if Nat.eqb (nr mod J) 0 then Some (nr / J)%nat else None.
-(* calc_prob_dists: row j of the reshaped, truncated and normalised  A v + b *)
-Definition prob_dists (eps : F) (nv m : nat) (A : mat) (b v : vec) (j : nat) : vec :=
-  trunc_norm_row eps m (fun x => affine nv A b v (j * m + x)%nat).
+(* The schedules may have DIFFERENT numbers of outcomes  ms = [num_outcomes(0); ...; num_outcomes(J-1)]  (sum = number of rows
+   of A).  Everything below models the code AFTER fixes calc-prob-dists-mixed-outcome-counts and
+   calc-fisher-matrix-mixed-outcome-counts (owner C08): the stacked vector  A v + b  is split by ms (np.split at the
+   cumulative sums); before those fixes it was reshaped to (J, -1), which is the same thing exactly when all m_j are equal. *)
+Fixpoint sizes_sum (ms : list nat) : nat := match ms with [] => O | m :: t => (m + sizes_sum t)%nat end.
+(* pieces of a stacked vector, each truncated and normalised: [(m_j, row_j)] *)
+Fixpoint pds_of_raw (eps : F) (raw : vec) (off : nat) (ms : list nat) : list (nat * vec) :=
+  match ms with
+  | [] => []
+  | m :: t => (m, trunc_norm_row eps m (fun x => raw (off + x)%nat)) :: pds_of_raw eps raw (off + m)%nat t
+  end.
+(* calc_prob_dists *)
+Definition tomo_pds (eps : F) (nv : nat) (ms : list nat) (A : mat) (b v : vec) : list (nat * vec) :=
+  pds_of_raw eps (affine nv A b v) O ms.
+(* calc_covariance_mat_single for schedules j, j+1, ... ; ns = data_num_list *)
+Fixpoint cov_blocks (ns : nat -> F) (j : nat) (pds : list (nat * vec)) : list (nat * mat) :=
+  match pds with
+  | [] => []
+  | (m, p) :: t => (m, cov_mat (ns j) p) :: cov_blocks ns (S j) t
+  end.
 (* calc_covariance_mat_total(qope, data_num_list) *)
-Definition tomo_cov_total (eps : F) (nv J m : nat) (A : mat) (b v : vec) (ns : nat -> F) : mat :=
-  dsum (map (fun j => (m, cov_mat (ns j) (prob_dists eps nv m A b v j))) (seq 0 J)).
+Definition tomo_cov_total (eps : F) (nv : nat) (ms : list nat) (A : mat) (b v : vec) (ns : nat -> F) : mat :=
+  dsum (cov_blocks ns O (tomo_pds eps nv ms A b v)).
+(* the independent schedules of the experiment: (outcomes, distribution, shots n_j) *)
+Fixpoint scheds_of (n : nat -> nat) (j : nat) (pds : list (nat * vec)) : list (sched F) :=
+  match pds with
+  | [] => []
+  | (m, p) :: t => (m, p, n j) :: scheds_of n (S j) t
+  end.
+Definition tomo_scheds (eps : F) (nv : nat) (ms : list nat) (A : mat) (b v : vec) (n : nat -> nat) : list (sched F) :=
+  scheds_of n O (tomo_pds eps nv ms A b v).
+(* hypothesis of the tomography-level theorems: piece j of the stacked vector is a probability distribution whose entries are
+   0 or at least eps (then truncate_and_normalize leaves it unchanged) *)
+Definition piece_ok (eps : F) (raw : vec) (off m : nat) : Prop :=
+  sumn m (fun x => raw (off + x)%nat) = 1 /\ forall x, (x < m)%nat -> raw (off + x)%nat = 0 \/ kle F eps (raw (off + x)%nat).
+Definition pieces_ok (eps : F) (raw : vec) (ms : list nat) : Prop :=
+  forall j, (j < length ms)%nat -> piece_ok eps raw (sizes_sum (firstn j ms)) (nth j ms O).
 (* calc_covariance_linear_mat_total = calc_conjugate(left_inv(A), Sigma) ; L is the left inverse (input) *)
 Definition cov_linear (nr : nat) (L Sigma : mat) : mat := conjugate nr L Sigma.
 Definition mse_var (nv nr : nat) (L Sigma : mat) : F := mtrace nv (cov_linear nr L Sigma).
@@ -131,30 +168,62 @@ Definition mse_var (nv nr : nat) (L Sigma : mat) : F := mtrace nv (cov_linear nr
 Inductive ttype := QST | POVMT | QPT | QMPT.
 (* StandardPovmt._generate_matS : hstack of (num_outcomes - 1) identities of size d2 = dim^2 *)
 Definition matS (d2 : nat) : mat := fun i j => if Nat.eqb (j mod d2) i then 1 else 0.
-(* calc_mse_linear_analytical(qope, data_num_list, mode): only StandardPovmt overrides the qoperation mode
-   (and only when the object carries the equality constraint); everything else is the var-mode value *)
-Definition mse_linear_analytical (ty : ttype) (mode_qop on_eq : bool) (d2 nv nr : nat) (L Sigma : mat) : F :=
+(* StandardQmpt._generate_matS (added by fix qmpt-mse-linear-analytical-qoperation): d2 x nv, an identity of size d2 = dim^2 at
+   the first d2 columns (= first row of the HS matrix) of each of the first  mo - 1  HS blocks of d2*d2 variables *)
+Definition matS_mp (d2 mo : nat) : mat :=
+  fun i j => if Nat.ltb j ((mo - 1) * (d2 * d2)) && Nat.eqb (j mod (d2 * d2)) i then 1 else 0.
+(* calc_mse_linear_analytical(qope, data_num_list, mode)  AFTER fix qmpt-mse-linear-analytical-qoperation (the faithful model
+   of the repaired code): StandardPovmt and StandardQmpt override the qoperation mode when the object carries the equality
+   constraint (adding tr(S V S^T) for the entries implied by the variables); everything else is the var-mode value *)
+Definition mse_analytical_of_cov (ty : ttype) (mode_qop on_eq : bool) (d2 mo nv : nat) (V : mat) : F :=
+  match ty with
+  | POVMT => if mode_qop && on_eq then mtrace nv V + mtrace d2 (conjugate nv (matS d2) V) else mtrace nv V
+  | QMPT => if mode_qop && on_eq then mtrace nv V + mtrace d2 (conjugate nv (matS_mp d2 mo) V) else mtrace nv V
+  | _ => mtrace nv V
+  end.
+(* V = calc_covariance_linear_mat_total = L Sigma L^T *)
+Definition mse_linear_analytical (ty : ttype) (mode_qop on_eq : bool) (d2 mo nv nr : nat) (L Sigma : mat) : F :=
+  mse_analytical_of_cov ty mode_qop on_eq d2 mo nv (cov_linear nr L Sigma).
+(* AS CODED BEFORE fix qmpt-mse-linear-analytical-qoperation (kept only for the _refuted theorem, not executed by the harness):
+   only StandardPovmt overrode the qoperation mode *)
+Definition mse_linear_analytical_before_fix (ty : ttype) (mode_qop on_eq : bool) (d2 nv nr : nat) (L Sigma : mat) : F :=
   match ty with
   | POVMT => if mode_qop && on_eq
              then mse_var nv nr L Sigma + mtrace d2 (conjugate nv (matS d2) (cov_linear nr L Sigma))
              else mse_var nv nr L Sigma
   | _ => mse_var nv nr L Sigma
   end.
-(* calc_mse_empi_dists_analytical *)
-Definition mse_empi (eps : F) (nv J m : nat) (A : mat) (b v : vec) (ns : nat -> F) : F :=
-  sumn J (fun j => mtrace m (cov_mat (ns j) (prob_dists eps nv m A b v j))).
-Definition mse_empi_closed (eps : F) (nv J m : nat) (A : mat) (b v : vec) (ns : nat -> F) : F :=
-  sumn J (fun j => let p := prob_dists eps nv m A b v j in (1 - dot m p p) / ns j).
-
-(* calc_fisher_matrix(j, var): size = int(len(matA)/num_schedules) *)
-Definition tomo_fisher (eps8 : F) (nv nr J j : nat) (A : mat) (b v : vec) : mres mat :=
-  let m := (nr / J)%nat in
-  mu_fisher eps8 m m (fun x => affine nv A b v (m * j + x)%nat) (fun x a => A (m * j + x)%nat a).
-Definition tomo_fisher_total (eps8 : F) (nv nr J : nat) (A : mat) (b v : vec) (w : nat -> F) : mres mat :=
-  match collect (map (fun j => tomo_fisher eps8 nv nr J j A b v) (seq 0 J)) with
-  | MErr c => MErr c
-  | MOk Fs => MOk (wsum_mats (combine (map w (seq 0 J)) Fs))
+(* calc_mse_empi_dists_analytical: sum over the schedules of tr(calc_covariance_mat_single) *)
+Fixpoint mse_empi_pds (ns : nat -> F) (j : nat) (pds : list (nat * vec)) : F :=
+  match pds with
+  | [] => 0
+  | (m, p) :: t => mtrace m (cov_mat (ns j) p) + mse_empi_pds ns (S j) t
   end.
+Definition mse_empi (eps : F) (nv : nat) (ms : list nat) (A : mat) (b v : vec) (ns : nat -> F) : F :=
+  mse_empi_pds ns O (tomo_pds eps nv ms A b v).
+Fixpoint mse_empi_closed_pds (ns : nat -> F) (j : nat) (pds : list (nat * vec)) : F :=
+  match pds with
+  | [] => 0
+  | (m, p) :: t => (1 - dot m p p) / ns j + mse_empi_closed_pds ns (S j) t
+  end.
+Definition mse_empi_closed (eps : F) (nv : nat) (ms : list nat) (A : mat) (b v : vec) (ns : nat -> F) : F :=
+  mse_empi_closed_pds ns O (tomo_pds eps nv ms A b v).
+
+(* calc_fisher_matrix(j, var): rows [start, stop) of the stacked vector raw = A v + b and of A, with start = sum of the outcome
+   counts of the schedules before j *)
+Definition fisher_of_raw (eps8 : F) (raw : vec) (A : mat) (ms : list nat) (j : nat) : mres mat :=
+  let off := sizes_sum (firstn j ms) in let m := nth j ms O in
+  mu_fisher eps8 m m (fun x => raw (off + x)%nat) (fun x a => A (off + x)%nat a).
+Definition tomo_fisher (eps8 : F) (nv : nat) (ms : list nat) (j : nat) (A : mat) (b v : vec) : mres mat :=
+  fisher_of_raw eps8 (affine nv A b v) A ms j.
+(* calc_fisher_matrix_total(var, weights) = sum_j weights[j] * calc_fisher_matrix(j, var) *)
+Definition fisher_total_of_raw (eps8 : F) (raw : vec) (A : mat) (ms : list nat) (w : nat -> F) : mres mat :=
+  match collect (map (fun j => fisher_of_raw eps8 raw A ms j) (seq 0 (length ms))) with
+  | MErr c => MErr c
+  | MOk Fs => MOk (wsum_mats (combine (map w (seq 0 (length ms))) Fs))
+  end.
+Definition tomo_fisher_total (eps8 : F) (nv : nat) (ms : list nat) (A : mat) (b v : vec) (w : nat -> F) : mres mat :=
+  fisher_total_of_raw eps8 (affine nv A b v) A ms w.
 (* calc_cramer_rao_bound(var, N, list_N) given the inverse Minv of the total Fisher matrix with weights n_j/N *)
 Definition cr_weights (N : F) (ns : nat -> F) : nat -> F := fun j => ns j / N.
 Definition cr_var (nv : nat) (N : F) (Minv : mat) : F := mtrace nv Minv / N.
@@ -171,8 +240,6 @@ Definition cr_analytical (ty : ttype) (on_eq : bool) (d2 nv : nat) (N : F) (Minv
      QST, QPT : 0 (the implied entries are constants),
      POVMT    : [I ... I]  (last element = identity - sum of the others),
      QMPT     : first row of the last HS = e_0 - sum of the first rows of the other HS matrices. *)
-Definition matS_mp (d2 mo : nat) : mat :=
-  fun i j => if Nat.ltb j ((mo - 1) * (d2 * d2)) && Nat.eqb (j mod (d2 * d2)) i then 1 else 0.
 Definition implied_S (ty : ttype) (on_eq : bool) (d2 mo : nat) : mat :=
   if on_eq then match ty with POVMT => matS d2 | QMPT => matS_mp d2 mo | _ => fun _ _ => 0 end
   else fun _ _ => 0.
